@@ -16,8 +16,7 @@ git -C /repo worktree add --detach "$wt" HEAD >/dev/null 2>&1
 cleanup() { git -C /repo worktree remove --force "$wt" >/dev/null 2>&1; rm -rf "$wt"; }
 trap cleanup EXIT
 cd "$wt"
-democmd=$(grep -v '^#' "$src/demo_cmd.txt" | grep -E '^(go |cd |\./|sh |bash )' | head -1)
-[ -n "$democmd" ] || democmd=$(head -1 "$src/demo_cmd.txt")
+democmd=$(grep -E '(go test|go run|go build)' "$src/demo_cmd.txt" | grep -v '^#' | head -1 | sed 's/^[^a-zA-Z.]*//; s/`//g')
 # place demo files: every file in src except patch/meta/demo_cmd goes where meta says, default: path given after "place:" in demo_cmd.txt, else starlark/
 place=$(grep -oE '[a-zA-Z0-9_/.-]+_test\.go|[a-zA-Z0-9_/.-]+\.star|[a-zA-Z0-9_/.-]+/main\.go' "$src/demo_cmd.txt" | head -5)
 for f in "$src"/*; do
